@@ -55,6 +55,7 @@ def configs(tier):
         add("motifs", motif, 3, 1)
     add("motifs", "hub2+tri", 2, 3)
     add("fast", "k3simple+k2", 3, 2)
+    add("fast", "k3simple", 4, 2)  # two motif instances with different numbers of edges occur here
     # larger fixed sequences (magnitude-dependent arithmetic): 15 triangle stubs on 11 vertices, 22 edge stubs on 12, 33 on 23
     for motif, dcol in (("k3", [2, 2, 2, 2, 1, 1, 1, 1, 1, 1, 1]), ("k2", [3, 3, 2, 2, 2, 2, 2, 2, 1, 1, 1, 1]), ("k3", [3] * 5 + [1] * 18)):
         cfgs.append({"name": f"fast-{motif}-N{len(dcol)}-fixed-sum{sum(dcol)}", "alg": "fast", "motif": motif, "N": len(dcol), "D": max(dcol), "via": "direct",
